@@ -139,13 +139,12 @@ func c13K() *ir.Module {
 	// a struct constant whose type is INFERRED from its fields (NewStruct(nil, ...)), printed as a
 	// typed operand: its Type() is computed on demand by every printer.
 	sc := constant.NewStruct(nil, constant.NewInt(types.I32, 1), constant.NewInt(types.I64, 2))
-	sf := m.NewFunc("", types.NewStruct(types.I32, types.I64))
-	sf.NewBlock("").NewRet(sc)
 	sg := m.NewGlobalDef("", constant.NewStruct(nil, constant.NewInt(types.I32, 3), constant.NewStruct(nil, constant.NewInt(types.I8, 4))))
 	_ = sg
 	h := m.NewFunc("", types.I32)
 	hb := h.NewBlock("")
 	r := hb.NewCall(f, constant.NewInt(types.I32, 1))
+	hb.NewStore(sc, constant.NewUndef(types.NewPointer(types.NewStruct(types.I32, types.I64))))
 	hb.NewRet(r)
 	return m
 }
